@@ -117,12 +117,37 @@ impl<'a, N: Normalizer> XmlSerializer<'a, N> {
                         ),
                     });
                 }
+                let fullname = match self.fullname_serializer.element_fullname(element.name_id) {
+                    Ok(fullname) => fullname,
+                    Err(e) => {
+                        // below an element for which the default namespace
+                        // had to be undeclared (see above), an element that
+                        // is in that default namespace declares it again
+                        let namespace = self.xot.namespace_for_name(element.name_id);
+                        if self
+                            .xot
+                            .namespace_for_prefix(node, self.xot.empty_prefix())
+                            != Some(namespace)
+                        {
+                            return Err(e);
+                        }
+                        self.fullname_serializer.add_empty_prefix(namespace);
+                        return Ok(OutputToken {
+                            space: false,
+                            text: format!(
+                                "<{} xmlns=\"{}\"",
+                                self.xot.local_name_str(element.name_id),
+                                serialize_attribute(
+                                    self.xot.namespace_str(namespace).into(),
+                                    &self.normalizer
+                                )
+                            ),
+                        });
+                    }
+                };
                 OutputToken {
                     space: false,
-                    text: format!(
-                        "<{}",
-                        self.fullname_serializer.element_fullname(element.name_id)?
-                    ),
+                    text: format!("<{}", fullname),
                 }
             }
             StartTagClose => {
